@@ -1,7 +1,7 @@
 """Rules over span.rs / GlobalCollect (shared by several properties)."""
 import re
 
-from .core import (Prov, bool_cond_edges, callee_is, discr_cond_edges, has_origin, origin_strs, result_switches,
+from .core import (Prov, aggs_reaching, transparent_args, bool_cond_edges, callee_is, discr_cond_edges, has_origin, origin_strs, result_switches,
                    root_local, sites_star, first_switches)
 
 GCOLLECT = "fastrace::collector::global_collector::GlobalCollect"
@@ -109,30 +109,35 @@ def rule_signals_forced(ctx, facts, rule, kinds=("CommitCollect", "DropCollect")
     prov = Prov(facts)
     found = {k: 0 for k in kinds}
     other = {"StartCollect": [], "SubmitSpans": []}
+    SENDS = ("fastrace::collector::global_collector::send_command", "fastrace::collector::global_collector::force_send_command")
+    # from each send site backwards: which command variants built in that function can be the argument
+    flows = {}           # (fn.path, variant, block) -> set of send callees
+    built = []
     for fn in facts.fns.values():
         if fn.crate != "fastrace":
             continue
         for b, blk in enumerate(fn.blocks):
             for s in blk["stmts"]:
-                if s["k"] != "assign" or s["rv"]["k"] != "agg" or s["rv"].get("adt") != CMD_ADT:
-                    continue
-                v = s["rv"]["variant"]
-                local = s["lhs"]["l"]
-                # where does the constructed command go?
-                users = []
-                for cb in fn.calls():
-                    for a in fn.term(cb)["args"]:
-                        if a["k"] in ("move", "copy") and root_local(fn, a)[0] == local:
-                            users.append(cb)
-                callees = sorted({fn.term(cb)["callee"] for cb in users})
-                if v in kinds:
-                    found[v] += 1
-                    ctx.check(callees == ["fastrace::collector::global_collector::force_send_command"], rule, fn.path, fn.loc(b),
-                              "a %s command is handed to force_send_command and to nothing else" % v,
-                              "", "constructed %s flows into %s: a full queue would silently drop the signal" % (v, callees),
-                              extra="force-" + v)
-                elif v in other:
-                    other[v].append((fn.path, callees))
+                if s["k"] == "assign" and s["rv"]["k"] == "agg" and s["rv"].get("adt") == CMD_ADT:
+                    built.append((fn, s["rv"]["variant"], b))
+                    flows.setdefault((fn.path, s["rv"]["variant"], b), set())
+        for cb in fn.calls():
+            t = fn.term(cb)
+            if not t["args"]:
+                continue
+            for a in t["args"]:
+                for v, vb in aggs_reaching(fn, a, CMD_ADT):
+                    flows.setdefault((fn.path, v, vb), set()).add(t["callee"])
+    for fn, v, b in built:
+        callees = sorted(c for c in flows.get((fn.path, v, b), ()) if not (transparent_args(c) is not None or c.endswith("::drop")))
+        if v in kinds:
+            found[v] += 1
+            ctx.check(callees == ["fastrace::collector::global_collector::force_send_command"], rule, fn.path, fn.loc(b),
+                      "a %s command is handed to force_send_command and to nothing else" % v,
+                      "", "constructed %s flows into %s: a full queue would silently drop the signal" % (v, callees),
+                      extra="force-" + v)
+        elif v in other:
+            other[v].append((fn.path, callees))
     for k in kinds:
         ctx.floor(rule, CMD_ADT, found[k], 1, "constructions of CollectCommand::%s" % k)
     fs = ctx.need_fn(facts, "fastrace::collector::global_collector::force_send_command", rule)
